@@ -67,6 +67,22 @@ void InvariantMixedDiscreteDistribution::updateDistribution()
 
   // bounds_
 
+  // if invariant_ is one of the values of dist_, the classes and their bounds are those of dist_
+  bool invariantIsNested = false;
+  for (size_t i = 0; i < distNCat; i++)
+  {
+    if (!distribution_.key_comp()(cats[i], invariant_) && !distribution_.key_comp()(invariant_, cats[i]))
+      invariantIsNested = true;
+  }
+  if (invariantIsNested)
+  {
+    for (size_t i = 0; i + 1 < distNCat; i++)
+    {
+      bounds_.push_back(dist_->getBound(i));
+    }
+    return;
+  }
+
   // if invariant_ is between 2 values of dist_, bounds_ are set in the
   // middle of the 3 values
 
